@@ -214,7 +214,20 @@ pub enum Step {
         as_kind: Option<(WrapKind, Kind)>,
     },
     /// the reference implementation writes a blob (C07)
-    RefWrap { blob: usize, family: u8, wk: WrapKind, key: usize, with: SecretRef, params: PwParams, entropy: Bytes },
+    RefWrap {
+        blob: usize,
+        family: u8,
+        wk: WrapKind,
+        key: usize,
+        with: SecretRef,
+        params: PwParams,
+        entropy: Bytes,
+        /// key sealing only: the sender's ephemeral secret *is* the recipient's own secret scalar (the
+        /// ephemeral public key in the blob then equals the recipient's public key): a value no honest
+        /// random source produces, and a conforming blob all the same
+        #[serde(default)]
+        own_secret: bool,
+    },
     /// compute the id of a key on a node
     Id { node: usize, slot: usize },
     /// Eq / Ord / Hash of two key ids must agree with their bytes
